@@ -598,6 +598,6 @@ def o_gcp(case, T):
 
 
 def build(chk: Check) -> None:
-    chk.sub("views", o_views, strategy=geoboxes(max_side=300), n={"quick": 6000, "thorough": 400000})
-    chk.sub("ops", o_ops, strategy=s_ops(), n={"quick": 14000, "thorough": 900000})
+    chk.sub("views", o_views, cov={"quick": 1500, "thorough": 120000}, strategy=geoboxes(max_side=300), n={"quick": 6000, "thorough": 400000})
+    chk.sub("ops", o_ops, cov={"quick": 3000, "thorough": 300000}, strategy=s_ops(), n={"quick": 14000, "thorough": 900000})
     chk.sub("gcp", o_gcp, strategy=s_gcp(), n={"quick": 2500, "thorough": 150000})
